@@ -521,10 +521,8 @@ func parseVerbose(out, text string) *PVerbose {
 func FmtSpecs() []string {
 	var out []string
 	for _, verb := range []string{"v", "s", "q", "x", "X"} {
-		for _, flags := range []string{"", "-", "#", " ", "0", "+", "-#", "# ", "+#", "-0"} {
-			if verb == "v" && strings.Contains(flags, "+") {
-				continue // %+v is the verbose form
-			}
+		// (the flags C09 names: '-', '#', ' ', '0'; '+' selects the verbose form)
+		for _, flags := range []string{"", "-", "#", " ", "0", "-#", "# ", "-0", "#0"} {
 			if verb == "v" && strings.Contains(flags, "#") {
 				continue // %#v is the Go-syntax form
 			}
